@@ -45,7 +45,8 @@ def directed(rng: random.Random) -> dict:
                        "defined_inside_a_scope_applied_outside", "label_in_conditional_applied_twice",
                        "redefined_between_applications", "named_like_a_mnemonic",
                        "applies_helper_defined_later", "block_forwarded_by_wrapper",
-                       "argument_is_the_parameters_own_name", "nested_block_macros_sharing_a_parameter_name"])
+                       "argument_is_the_parameters_own_name", "nested_block_macros_sharing_a_parameter_name",
+                       "recursion_ended_by_a_counter", "argument_mixing_a_known_name_and_a_later_label"])
     expect_reject = False
     expect_bytes = None
     if kind == "capture_eager":
@@ -103,6 +104,21 @@ def directed(rng: random.Random) -> dict:
                  {"k": "call", "n": "with_a16q", "as": [{"blk": [db(0xA9), {"k": "call", "n": "with_xy16q", "as": [{"blk": [db(0xA2)]}]}, db(0x8D)]}]},
                  {"k": "call", "n": "with_a16q", "as": [{"blk": [{"k": "call", "n": "with_a16q", "as": [{"blk": [db(0xEA)]}]}]}]}]
         expect_bytes = bytes([0xC2, 0x20, 0xA9, 0xC2, 0x10, 0xA2, 0xE2, 0x10, 0x8D, 0xE2, 0x20, 0xC2, 0x20, 0xC2, 0x20, 0xEA, 0xE2, 0x20, 0xE2, 0x20])
+    elif kind == "recursion_ended_by_a_counter":
+        # the recursion ends by a counter kept in a variable, every level applies the macro with the same argument
+        n = rng.choice([1, 3, 5])
+        body += [{"k": "macro", "n": "fillq", "ps": ["pv"], "b": [{"k": "if", "c": E("leftq"), "t": [db(E("pv")), {"k": "assign", "n": "leftq", "e": E("leftq", "-", 1)}, {"k": "call", "n": "fillq", "as": [E("pv")]}]}]},
+                 {"k": "assign", "n": "leftq", "e": E(n)}, {"k": "call", "n": "fillq", "as": [E(0xEA)]}, db(0xEE)]
+        expect_bytes = bytes([0xEA] * n + [0xEE])
+    elif kind == "argument_mixing_a_known_name_and_a_later_label":
+        # one application statement expanded several times (a loop, an outer macro), its argument adds a name known at each expansion to a
+        # label defined later: every expansion has its own value
+        body += [{"k": "macro", "n": "entq", "ps": ["pa"], "b": [{"k": "data", "d": "dw", "es": [E("pa")]}]},
+                 {"k": "for", "v": "kq", "a": E(0), "b": E(3), "body": [{"k": "call", "n": "entq", "as": [E("tableq", "+", "kq")]}]},
+                 {"k": "macro", "n": "rowq", "ps": ["pi"], "b": [{"k": "call", "n": "entq", "as": [E("tableq", "+", "pi")]}]},
+                 {"k": "call", "n": "rowq", "as": [E(1)]}, {"k": "call", "n": "rowq", "as": [E(4)]}, {"k": "label", "n": "tableq"}, db(0x60)]
+        t0 = 0x8000 + 10
+        expect_bytes = b"".join((t0 + k).to_bytes(2, "little") for k in (0, 1, 2, 1, 4)) + b"\x60"
     elif kind == "applies_helper_defined_later":
         # a macro whose body applies a helper that is defined further down (before the first application): applications are expanded when
         # they are met, not when the macro is defined
